@@ -728,3 +728,7 @@ mod tests {
         builder.append_array(&array)
     }
 }
+
+#[cfg(kani)]
+#[path = "/verif/kani/arrow-array/builder/primitive_builder.rs"]
+mod verif_kani;
